@@ -352,11 +352,17 @@ impl FsCommand {
             .expect("must be a regular file with a name");
         // File names are limited to 255 bytes on most file systems,
         // leave the room for the 25 bytes of the suffix.
+        // The same applies to the length of the whole path.
         #[cfg(unix)]
         let name = {
             use std::os::unix::ffi::{OsStrExt, OsStringExt};
             let bytes = name.as_bytes();
-            std::ffi::OsString::from_vec(bytes[..min(bytes.len(), 230)].to_vec())
+            let path_len = path.to_path_buf().as_os_str().len();
+            let max_path_len = libc::PATH_MAX as usize - 1;
+            let room_in_path =
+                bytes.len() - min(bytes.len(), (path_len + 25).saturating_sub(max_path_len));
+            let len = min(min(bytes.len(), 230), room_in_path);
+            std::ffi::OsString::from_vec(bytes[..len].to_vec())
         };
         let mut name = name;
         name.push(".");
